@@ -425,19 +425,6 @@ def abbrev_rule(R, lib, zs):
         R.violation('R7', c, pf.loc, 'both sides use the table %r; zic names a transition with any non-zero SAVE by the second half: expected %r' % (ptab, want))
 
 
-class _CxxFuncs:
-    """adapter: the functions of the C++ library under the module interface acv/aeval.py expects."""
-
-    def __init__(self, lib, prefix):
-        from types import SimpleNamespace
-        self.funcs = {}
-        for q in list(lib.funcs):
-            if q.startswith(prefix):
-                fs = lib.fns(q)         # instantiations, not the template pattern
-                if fs:
-                    self.funcs[q] = SimpleNamespace(params=[p for p, _t in fs[0].params], body=fs[0].body, loc=fs[0].loc)
-
-
 def pool_rules(R, lib, zs):
     """The candidate pool of the C++ TransitionStorage and the Python list of candidates are filled by sibling insertion
     routines (addFreeAgentToCandidatePool / _add_transition_sorted) and the C++ pool is compacted in place by
@@ -447,11 +434,11 @@ def pool_rules(R, lib, zs):
     included), the C++ side must leave the other sections and the array as a permutation of the same objects.  Compaction:
     the active candidates, in their order, directly behind the active section; all three indexes behind them; the array
     still a permutation (the pool recycles these objects)."""
-    from .aeval import AEval, AObj, Raised
+    from .aeval import AEval, AObj, Raised, CxxModule
     import itertools
     R.rule('R9', 'candidate-pool insertion agrees between C++ and Python on every small sorted pool; in-place compaction keeps order and objects', floor=300)
     TS = 'ace_time::extended::TransitionStorage::'
-    cmod = _CxxFuncs(lib, TS)
+    cmod = CxxModule(lib, [TS])
     ins = TS + 'addFreeAgentToCandidatePool'
     comp = TS + 'addActiveCandidatesToActivePool'
     if ins not in cmod.funcs or comp not in cmod.funcs:
